@@ -309,7 +309,7 @@ func (tree *Tree[T]) URL(buf *errwrap.StringBuilder, pattern string, ps map[stri
 		switch s.Type {
 		case syntax.String:
 			buf.WString(s.Value)
-		case syntax.Named, syntax.Regexp:
+		case syntax.Named, syntax.Regexp, syntax.Interceptor:
 			param, exists := ps[s.Name]
 			if !exists {
 				return fmt.Errorf("未找到参数 %s 的值", s.Name)
